@@ -35,15 +35,31 @@ func vIP(size int) net.IP {
 func vIPList(n int) []net.IP {
 	var out []net.IP
 	for i := 0; i < n; i++ {
+		if i == 1 && vBool() {
+			// the 16-byte spelling of an IPv4 address (what net.ParseIP returns; an AAAA record may hold ::ffff:a.b.c.d):
+			// it is the same address, and the same family, as its 4-byte spelling
+			v4 := vIP(4)
+			out = append(out, net.IPv4(v4[0], v4[1], v4[2], v4[3]))
+			continue
+		}
 		out = append(out, vIP([]int{4, 16, 5}[vInt(0, 1+vTier())])) // (5: not an IP address, thorough tier)
 	}
 	return out
+}
+
+// vNorm is the address itself: the 4-byte form of an IPv4 address however it is spelled.
+func vNorm(ip []byte) []byte {
+	if v4 := net.IP(ip).To4(); v4 != nil && len(ip) == 16 {
+		return v4
+	}
+	return ip
 }
 
 // vRefTargets is the rule set of the statement, written as a straight-line reference.
 func vRefTargets(r ResolveResult, network string) []vTgt {
 	var out []vTgt
 	famOK := func(ip []byte) bool {
+		ip = vNorm(ip)
 		if network == "tcp4" || network == "udp4" {
 			return len(ip) == 4
 		}
@@ -53,6 +69,7 @@ func vRefTargets(r ResolveResult, network string) []vTgt {
 		return len(ip) == 4 || len(ip) == 16
 	}
 	dup := func(ip []byte, port uint16) bool {
+		ip = vNorm(ip)
 		for _, t := range out {
 			if t.port == port && vBytesEq(t.ip, ip) {
 				return true
@@ -86,7 +103,7 @@ func vRefTargets(r ResolveResult, network string) []vTgt {
 		}
 		for _, ip := range ips {
 			if famOK(ip) && !dup(ip, port) {
-				out = append(out, vTgt{ip: ip, port: port, ech: h.ECH, alpn: alpn})
+				out = append(out, vTgt{ip: vNorm(ip), port: port, ech: h.ECH, alpn: alpn})
 			}
 		}
 	}
@@ -95,7 +112,7 @@ func vRefTargets(r ResolveResult, network string) []vTgt {
 	}
 	for _, ip := range r.Address {
 		if famOK(ip) && !dup(ip, r.Port) {
-			out = append(out, vTgt{ip: ip, port: r.Port})
+			out = append(out, vTgt{ip: vNorm(ip), port: r.Port})
 		}
 	}
 	return out
